@@ -41,17 +41,37 @@ pub fn plane_sprite(plane: &Plane, modes: &[u16]) -> Sprite {
     sp.layers.push(l0);
     let backb = px_bytes(&plane.back);
     let srcb = px_bytes(&plane.src);
+    // family T: the source reaches the blender through a tilemap cel (8x8 tiles cut from the source plane)
+    let via_tilemap = plane.family == "T-through-tilemap";
+    let (tw, th) = (8u16, 8u16);
+    let (mw, mh) = (plane.w / tw, plane.h / th);
+    if via_tilemap {
+        let mut pixels = vec![0u8; tw as usize * th as usize * 4];
+        for ty in 0..mh as usize {
+            for tx in 0..mw as usize {
+                for y in 0..th as usize {
+                    let row = (ty * th as usize + y) * plane.w as usize + tx * tw as usize;
+                    pixels.extend_from_slice(&srcb[row * 4..(row + tw as usize) * 4]);
+                }
+            }
+        }
+        sp.tilesets.push(TilesetM { id: 0, flags: TS_EMBED | TS_ZERO_EMPTY, count: mw as u32 * mh as u32 + 1, tw, th, base_index: 1, name: "src".into(), ext: None, pixels });
+    }
     for (k, m) in modes.iter().enumerate() {
         let mut l = LayerM::image(MODE_NAMES[*m as usize]);
         l.blend = *m;
         l.opacity = plane.lo;
+        if via_tilemap {
+            l.kind = LayerKind::Tilemap(0);
+        }
         sp.layers.push(l);
         if k == 0 {
             sp.cels.insert((0, 0), CelM { x: 0, y: 0, opacity: 255, content: CelContentM::Image { w: plane.w, h: plane.h, pixels: backb.clone() }, ud: None });
         } else {
             sp.cels.insert((k as u16, 0), CelM { x: 0, y: 0, opacity: 255, content: CelContentM::Link(0), ud: None });
         }
-        sp.cels.insert((k as u16, 1 + k as u16), CelM { x: 0, y: 0, opacity: plane.co, content: CelContentM::Image { w: plane.w, h: plane.h, pixels: srcb.clone() }, ud: None });
+        let content = if via_tilemap { CelContentM::Tilemap { w: mw, h: mh, tiles: (1..=mw as u32 * mh as u32).collect(), masks: [0x1fff_ffff, 0x2000_0000, 0x4000_0000, 0x8000_0000] } } else { CelContentM::Image { w: plane.w, h: plane.h, pixels: srcb.clone() } };
+        sp.cels.insert((k as u16, 1 + k as u16), CelM { x: 0, y: 0, opacity: plane.co, content, ud: None });
     }
     sp
 }
@@ -400,6 +420,48 @@ pub fn plane_z(seed: u64, p: u64) -> Plane {
     Plane { family: "Z-zero-opacity-alpha0", label: format!("Z(p={},variant={})", p, variant), back, src, lo, co, w: 128, h: 128 }
 }
 
+/// [T] the source pixels reach the blender through a tilemap cel: random pairs, all opacity pairs incl. 0 and 255
+pub fn plane_t(seed: u64, p: u64) -> Plane {
+    let mut rng = Rng::derive(seed, "T", p);
+    let (w, h) = (64u16, 64u16);
+    let n = w as usize * h as usize;
+    let mut back = Vec::with_capacity(n);
+    let mut src = Vec::with_capacity(n);
+    for _ in 0..n {
+        back.push(rng.u32() | if rng.chance(1, 2) { 0xff00_0000 } else { 0 });
+        src.push(rng.u32() | if rng.chance(1, 3) { 0xff00_0000 } else { 0 });
+    }
+    let (lo, co) = match p % 8 {
+        0 => (255, 255),
+        1 => (rng.opacity(), 255),
+        2 => (255, rng.opacity()),
+        3 => (0, rng.opacity()),
+        4 => (rng.opacity(), 0),
+        _ => (rng.opacity(), rng.opacity()),
+    };
+    Plane { family: "T-through-tilemap", label: format!("T(p={})", p), back, src, lo, co, w, h }
+}
+
+/// [G] cels with more than 65536 pixels (row offsets and pixel counts beyond 16 bits, up to a megapixel):
+/// random pairs at random opacities
+pub fn plane_g(seed: u64, p: u64) -> Plane {
+    let mut rng = Rng::derive(seed, "G", p);
+    let (w, h) = [(256u16, 257u16), (257, 256), (320, 240), (512, 512), (1024, 257), (600, 500), (2, 40_000), (1024, 1024)][(p % 8) as usize];
+    let n = w as usize * h as usize;
+    let mut back = Vec::with_capacity(n);
+    let mut src = Vec::with_capacity(n);
+    for _ in 0..n {
+        back.push(rng.u32() | if rng.chance(1, 2) { 0xff00_0000 } else { 0 });
+        src.push(rng.u32() | if rng.chance(1, 3) { 0xff00_0000 } else { 0 });
+    }
+    let (lo, co) = match p % 3 {
+        0 => (rng.opacity(), 255),
+        1 => (255, rng.opacity()),
+        _ => (rng.opacity(), rng.opacity()),
+    };
+    Plane { family: "G-large-cel", label: format!("G(p={},{}x{})", p, w, h), back, src, lo, co, w, h }
+}
+
 // ---------------------------------------------------------------------------
 // [F] stacks: several blended cels per frame, flat colours (runs of identical
 // backdrop/source pairs across consecutive cels), non-overlapping shapes
@@ -499,6 +561,8 @@ pub enum Job {
     E { p: u64 },
     F { p: u64 },
     Z { p: u64 },
+    G { p: u64 },
+    T { p: u64 },
 }
 
 pub fn alpha_lattice_24() -> Vec<u8> {
@@ -555,6 +619,12 @@ pub fn schedule(tier: Tier, seed: u64) -> Vec<Job> {
     for p in 0..tier.pick(24, 240) {
         jobs.push(Job::Z { p });
     }
+    for p in 0..tier.pick(7, 70) {
+        jobs.push(Job::G { p });
+    }
+    for p in 0..tier.pick(40, 800) {
+        jobs.push(Job::T { p });
+    }
     jobs
 }
 
@@ -568,6 +638,8 @@ pub fn job_plane(job: &Job, seed: u64) -> (Plane, &'static [u16]) {
         Job::E { p } => (plane_e(seed, *p), &HSL_PLUS_NORMAL),
         Job::F { .. } => panic!("stack jobs are handled by check_stack"),
         Job::Z { p } => (plane_z(seed, *p), &ALL_MODES),
+        Job::G { p } => (plane_g(seed, *p), &ALL_MODES),
+        Job::T { p } => (plane_t(seed, *p), &ALL_MODES),
     }
 }
 
